@@ -102,7 +102,9 @@ static char *verif_strstr(const char *h, const char *n){
   __CPROVER_assume(nl == 0 || h[k] == n[0]);
   return (char *)h + k;
 }
+#ifndef VERIF_NO_STRSTR
 char *strstr(const char *h, const char *n){ return verif_strstr(h, n); }
+#endif
 char *strcasestr(const char *h, const char *n){
   size_t hl = strlen(h), nl = strlen(n);
   if (nl > hl || nondet_bool()) return 0;
@@ -140,8 +142,6 @@ long atol(const char *s){ (void)strlen(s); return nondet_long(); }
 /* snprintf, size level: POSIX — returns the length the full output would have; writes min(ret, n-1) bytes and a NUL.
    The (literal, concrete) format is walked to bound that length: %s is exact (strlen of the argument), %.*s is
    min(strlen, precision), integer conversions lie between 1 and their maximal width, literal bytes count 1. */
-int verif_snprintf_truncated;        /* ghost: some call could not store its whole output */
-int verif_snprintf_register;         /* harness opt-in: the result buffer is entered into the known-length table */
 void verif_set_string(const char *p, size_t len){
   for (int i = 0; i < VERIF_NSTR; i++) if (i < verif_nstr && verif_str[i].obj && __CPROVER_same_object(verif_str[i].obj, p)) { verif_str[i].obj = p; verif_str[i].len = len; return; }
   if (verif_nstr < VERIF_NSTR) { verif_str[verif_nstr].obj = p; verif_str[verif_nstr].len = len; verif_nstr++; }
